@@ -27,7 +27,9 @@ def cases(draw):
     b = draw(st.integers(1, 6))
     p = draw(st.integers(0, 6))
     script = draw(st.lists(row, min_size=b * (p + 1), max_size=b * (p + 1)))
-    return {"d": d, "history": hist, "batch": b, "passes": p, "script": script}
+    # letters are offset + k*step: with a tiny step distinct points are numerically close (but still different points)
+    step, off = draw(st.sampled_from([(1.0, 0.0), (1.0, 0.0), (1e-6, 1.0), (1e-9, 0.0), (0.25, -1.0), (1e-7, 123.0)]))
+    return {"d": d, "history": hist, "batch": b, "passes": p, "script": script, "step": step, "offset": off}
 
 
 def _model(hist, script, b, p):
@@ -68,8 +70,9 @@ def check_dedup(ctx: Ctx, case):
 
     sub = "dedup"
     d, b, p = case["d"], case["batch"], case["passes"]
-    hist = [tuple(float(x) for x in r) for r in case["history"]]
-    script = [tuple(float(x) for x in r) for r in case["script"]]
+    step, off = case.get("step", 1.0), case.get("offset", 0.0)
+    hist = [tuple(off + float(x) * step for x in r) for r in case["history"]]
+    script = [tuple(off + float(x) * step for x in r) for r in case["script"]]
     requested = []
 
     class Scripted(BaseSampler):
@@ -83,14 +86,14 @@ def check_dedup(ctx: Ctx, case):
             self.pos += batch_size
             return out
 
-    space = SearchSpace([[0.0] * d, [10.0] * d], [1.0] * d, verbose=False)
+    space = SearchSpace([[0.0] * d, [10.0] * d], [1.0] * d, verbose=False)   # not used by the scripted sampler
     existing = np.array(hist, dtype=float).reshape(len(hist), d)
     e0 = existing.copy()
     losses = np.arange(len(hist), dtype=float)
     sizes, model_out, flagged, first = _model(hist, script, b, p)
     cnt0 = Counter(hist) + Counter(first)
     first_has_repeat = any(cnt0[r] > 1 for r in first)
-    classes = [f"P={p}" if p == 0 else "P>0"]
+    classes = [f"P={p}" if p == 0 else "P>0", f"step={step:g}"]
     if any(Counter(first)[r] > 1 for r in first):
         classes.append("in-batch-repeat")
     if any(r in set(hist) for r in first):
